@@ -338,6 +338,9 @@ func runProperty(v *Verifier, prop, tier, only string, seed int, verbose bool) *
 	res := &propResult{prop: prop, tier: tier, seed: seed}
 	reps, obls := collect(v, prop, only)
 	res.reps, res.obls = reps, obls
+	for _, u := range v.uncoveredRegions(prop) {
+		res.undecided = append(res.undecided, u)
+	}
 	for _, b := range v.checkImmutable() {
 		res.undecided = append(res.undecided, "immutable declaration violated: "+b)
 	}
